@@ -1,6 +1,7 @@
 #!/usr/bin/env python3
 # C05: every label reference assembles to the address of its label (DESIGN.md section 4, C05).
 from layrun import *
+import chainlib
 
 def expand_gaps(shape, vals):
     out = []; vmap = {}
@@ -44,12 +45,17 @@ def main():
     ck = Check('C05', 'other')
     L, shapes, results = run_family(ck, 'C05')
     gap_family(ck, L)
+    chainlib.certificate(ck)
     ck.assume("programs are built with the real directive constructors (the parser is covered separately in C10); immediates and DATA words are 32-bit symbols",
               "shapes: all programs of up to N directives over {label A|B, DATA, imm, relative ref, absolute ref, OPR, FUNC} modulo label renaming, with one representative "
               "of the relative (BR,BRZ,BRN,LDAP,LDAI,LDBI,STAI) and absolute (LDAM,LDBM,STAM,LDAC,LDBC) mnemonic classes rotated through; N = 3 quick, 4 thorough; plus boundary programs",
               "gap family: R relative references and their labels in every arrangement with a Padding directive of symbolic size (0..2^20 bytes) before, between and after them, layout only (emit off): "
               "z3 proves on every path that offsets are cumulative, each reference satisfies offset + size + operand == label address and its operand fits the size chosen; R = 1 quick, R <= 2 thorough. "
               "Interlocking chains of three or more references at symbolic distances are outside (path count grows as 8^R per pass)",
+              "termination: (1) on every explored path of the shape set and the gap family the fixed point is reached within the step budget; (2) certificate for all programs: a reference put into an ARBITRARY "
+              "encoded length 1..8 (InstrLabel::update on the fresh object) before the real CodeGen constructor runs never ends shorter than it started, for every gap size - lengths only grow, are bounded by 8, "
+              "and a pass with stable lengths settles labels and then operands, so the iteration stops (R = 1 relative/absolute quick, R <= 2 thorough). A failing certificate is reported as INCONCLUSIVE, not as a violation: "
+              "a program on which hexasm really hangs needs interlocking references beyond the shape bound",
               "duplicate definitions of a label are outside (which definition is 'its label' is not defined)",
               "std::fstream replaced by a byte sink; rb-tree rebalancing replaced by BST insertion; error constructors keep their type and lose their text",
               "step budget 300000 + 4000 x directives IR instructions per path (about 25 layout passes): paths cut there are reported as possible non-termination, never as success")
